@@ -105,9 +105,11 @@ func runScenario(t *testing.T, prop string, sc *Scenario, devs []vsched.Dev, kee
 		defer func() {
 			// synctest panics when the bubble cannot end (goroutines blocked for ever):
 			// a harness/teardown problem of this execution, not a crash of the worker
-			if r := recover(); r != nil {
+			if r := recover(); r != nil && !s.HorizonHit {
 				res.Infra = fmt.Sprintf("bubble did not terminate: %v", r)
 			}
+			// (after a hang / deadlock / livelock verdict threads blocked for ever in the code under test are the
+			// expected aftermath, not a harness problem)
 		}()
 		synctest.Test(t, func(t *testing.T) {
 			s.Run(func() {
@@ -123,7 +125,7 @@ func runScenario(t *testing.T, prop string, sc *Scenario, devs []vsched.Dev, kee
 	if s.BadReplay != "" {
 		res.Infra = "bad replay: " + s.BadReplay
 	}
-	if len(s.Leaked) > 0 {
+	if len(s.Leaked) > 0 && !s.HorizonHit {
 		res.Infra = "threads leaked through teardown: " + strings.Join(s.Leaked, ",")
 	}
 	if w == nil {
